@@ -39,7 +39,7 @@ func recompType(r *Rng) *GTy {
 				walk(t.Elem)
 			case "S":
 				for _, f := range t.Fields {
-					if f.Str || (f.TagHas && f.Dash) {
+					if f.Str || (f.TagHas && (f.Dash || f.TagName == "-")) { // a member named "-" is written bare by sen (recorded C10 finding)
 						ok = false
 					}
 					walk(f.T)
